@@ -112,6 +112,12 @@ CLAIMED = {
   "design_ref": "DESIGN.md §5 C17, §10",
   "note": "The doubly linked lists of list.c are abstracted to id lists (tied by the ASan correspondence only). Trusted: pthread mutex/condvar semantics as in Model.Threads.",
  },
+ "C11": {
+  "technique": "Lean 4 proofs that the translator model's output compiles (declared slots, unique labels, goto targets) and that numeric statements are never undefined (UB-tracking C semantics over regenerated macros/tables) + compile/sanitizer/cross-compiler matrix on the real output",
+  "text": "decls_cover_uses: every slot variable mentioned by the emitted body and the return statement is declared; labels_well_formed: labels are pairwise distinct, never L0, every goto has a target — for every function the (strict) translator model accepts, by structural induction over all instructions; C11Ops: for 120 numeric opcodes the emitted statement (dispatch table and macros regenerated from c.c / w2c2_base.h) evaluates for ALL operand values to a value or the specified trap, never to signed overflow, oversized shift, division overflow or a builtin outside its domain. The model is tied token by token to the real w2c2; the real output of generated and directed modules is compiled with gcc and clang at -O0..-O3, gnu89/default, plain and ASan+UBSan, must compile, report nothing, and agree across all builds and with V8.",
+  "design_ref": "DESIGN.md §5 C11, §10",
+  "note": "The 16 float-to-int truncation opcodes (pendingOpcodes) are guarded by the TRUNC macros: NaN rejection is proved (C02), exactness of the range guard is tested at every boundary neighbour under UBSan, not proved. Module-level C text (Init*, struct, exports) compiles by the matrix only. Trusted: CSem's reading of C; sanitizer completeness on executed paths.",
+ },
 }
 
 NOT_YET = {f"C{n:02d}": "check under construction in this round (model/theorems not yet committed); see DESIGN.md §8 build order" for n in range(1, 21)}
